@@ -41,13 +41,16 @@ TY = {"t": "i", "r": "s", "g": "s"}
 
 
 class Case:
-    def __init__(self, lines, n, stream, r=None):
+    def __init__(self, lines, n, stream, r=None, zero_item=False):
         self.lines = lines
         lines.append(f"case {n} {stream}")
         # same dimension names and sizes from case to case, other items or another item order
         # (items of mixed type only in the export stream: a plotted axis shows labels as text anyway)
         pool = {l: [a for a in ALT[l] if stream == "export" or len({i[0] for i in a}) == 1] for l in "trg"}
         self.items = {l: (r.choice(pool[l]) if r is not None else ITEMS[l]) for l in "trg"}
+        if zero_item:
+            # an item that is falsy in Python (age 0 among 0, 1, 2): a slice by it is a slice like any other
+            self.items["t"] = r.choice([["i0", "i1", "i2"], ["i1", "i0", "i2"], ["i2", "i1", "i0"]])
         for l in "trg":
             ty = "n" if len({i[0] for i in self.items[l]}) > 1 else TY[l]
             lines.append(f"dim ${H[l]} D:{l}:{NAME[l]}:{ty}:{','.join(self.items[l])}")
@@ -113,13 +116,25 @@ def gen_plot(tier, seed):
     lines = []
     stats = {"cases": 0, "flows": 0, "stocks": 0, "scalar_flows": 0, "sankeys": 0, "splits": 0, "slices": 0, "plots": 0,
              "x_arrays": 0, "invalid_on_purpose": 0}
-    for n in range(ncases):
-        c = Case(lines, n, "plot", r)
-        if r.random() < 0.5:
+    # after the ordinary cases: Sankey slices by an item that is falsy in Python (seed C20_r6_1: a slice entry tested
+    # by truthiness). Drawn from a generator of their own so the cases above stay what they were.
+    r2 = rng(seed, "plot-zero-item")
+    nextra = 12 if tier == "quick" else 150
+    for n in range(ncases + nextra):
+        extra = n >= ncases
+        if extra:
+            r = r2
+            stats["falsy_item_cases"] = stats.get("falsy_item_cases", 0) + 1
+        c = Case(lines, n, "plot", r, zero_item=extra)
+        if extra or r.random() < 0.5:
             procs, all_ls, flows, stocks = gen_system(r, c, lines, stats, allow_scalar=True)
             for _ in range(r.randint(1, 3)):
                 lines.append("k_begin")
-                if r.random() < 0.6:
+                if extra:
+                    ks = ["t"] + r.sample([l for l in all_ls if l != "t"], r.randint(0, len(all_ls) - 1))
+                    lines.append("k_slice " + " ".join(f"{l}={'i0' if l == 't' and r.random() < 0.8 else r.choice(c.items[l])}" for l in ks))
+                    stats["slices"] += 1
+                elif r.random() < 0.6:
                     ks = r.sample(all_ls, r.randint(1, len(all_ls)))
                     lines.append("k_slice " + " ".join(f"{l}={r.choice(c.items[l])}" for l in ks))
                     stats["slices"] += 1
